@@ -312,7 +312,7 @@ def run_shard(spec):
         if spec["family"] == "ET":
             for code in (2, 4, 6, 1):
                 other_firmware_ids("ET", spec["port"], code, part)
-        for k in range(12 if not spec["wide"] else 60):
+        for k in range(12 if not spec["wide"] else 300):
             if spec["family"] != "ES":
                 concurrent_case(spec["family"], spec["port"], f"{spec['seed']}:conc:{k}", part)
         return part
